@@ -905,18 +905,20 @@ func collectSinks(funcs []*ssa.Function) []sink {
 			for _, ins := range b.Instrs {
 				switch x := ins.(type) {
 				case *ssa.Call:
-					if funcFullName(ssaCalleeObj(x)) != "fmt.Sprintf" || len(x.Call.Args) < 1 {
+					fv, packed, forwarding, isS := ssaSprintf(x)
+					if !isS || forwarding {
+						// (a printf wrapper handing its own format and operands on: its call sites are the sinks)
 						continue
 					}
-					format, ok := constStringOf(x.Call.Args[0])
+					format, ok := constStringOf(fv)
 					if !ok {
 						// non-constant format: the format itself is an operand in code context
-						out = append(out, sink{Fn: fn, Instr: ins, Format: "<non-constant format>", Hole: hole{Verb: "format", Ctx: ctxCode}, Operand: x.Call.Args[0], Kind: "sprintf-format"})
+						out = append(out, sink{Fn: fn, Instr: ins, Format: "<non-constant format>", Hole: hole{Verb: "format", Ctx: ctxCode}, Operand: fv, Kind: "sprintf-format"})
 						continue
 					}
 					var ops []ssa.Value
-					if len(x.Call.Args) > 1 {
-						ops = variadicOperands(x.Call.Args[1])
+					if packed != nil {
+						ops = variadicOperands(packed)
 					}
 					holes, _ := scanFormat(format, ctxCode)
 					for _, h := range holes {
